@@ -59,21 +59,54 @@ def validate_cases(module, trace, env, shards=None, timeout=3000, cfg_text="SPEC
     fails = []
 
     def one(part):
+        """-> (part, [casefails]).  A case the specification cannot evaluate (TLC runtime error, e.g. the
+        TLA+ decoder running off the end of bytes the implementation wrote) becomes a `judge-error`
+        casefail for that case and judging resumes with the next line."""
         p, cnt = part
-        e = dict(env)
-        e["TRACE"] = p
-        r = tlc(module, cfg, workers=1, env=e, timeout=timeout, xmx="3g")
-        return p, cnt, r
-
-    with cf.ThreadPoolExecutor(max_workers=len(parts)) as ex:
-        for p, cnt, r in ex.map(one, parts):
+        lines = open(p).readlines()
+        offset = 0
+        cur = p
+        got = []
+        for attempt in range(40):
+            e = dict(env)
+            e["TRACE"] = cur
+            r = tlc(module, cfg, workers=1, env=e, timeout=timeout, xmx="3g", tolerate_eval_error=True)
+            here = casefails(r["out"])
+            for c in here:
+                c["line"] += offset
+            if "eval_error" in r:
+                ks = re.findall(r"^l = (\d+)$", r["out"], re.M)
+                if not ks:
+                    raise ToolError("%s: evaluation error without a position:\n%s" % (module, r["out"][-2500:]))
+                k = int(ks[-1]) + offset
+                got += [c for c in here if c["line"] < k]
+                try:
+                    ep = json.loads(lines[k - 1]).get("ep", "?")
+                except Exception:
+                    ep = "?"
+                got.append({"line": k, "ep": ep, "clause": "judge-error", "issues": [], "error": r["eval_error"]})
+                if k >= len(lines):
+                    return p, got
+                cur = "%s.rest%d" % (p, attempt)
+                with open(cur, "w") as f:
+                    f.writelines(lines[k:])
+                offset = k
+                continue
             v = tlc_violation(r)
             if v:
-                raise ToolError("%s stopped on %s: %s\n%s" % (module, p, v, r["out"][-2500:]))
+                raise ToolError("%s stopped on %s: %s\n%s" % (module, cur, v, r["out"][-2500:]))
             done = re.search(r'<<"TRACE_DONE", (\d+)>>', r["out"])
-            if not done or int(done.group(1)) != cnt:
-                raise ToolError("%s did not consume %s (%d lines):\n%s" % (module, p, cnt, r["out"][-3000:]))
-            for c in casefails(r["out"]):
+            if not done or int(done.group(1)) != len(lines) - offset:
+                raise ToolError("%s did not consume %s (%d lines):\n%s" % (module, cur, len(lines) - offset, r["out"][-3000:]))
+            got += here
+            if cur != p and os.path.exists(cur):
+                os.remove(cur)
+            return p, got
+        raise ToolError("%s: more than 40 cases of %s could not be evaluated" % (module, p))
+
+    with cf.ThreadPoolExecutor(max_workers=len(parts)) as ex:
+        for p, got in ex.map(one, parts):
+            for c in got:
                 c["part"] = p
                 fails.append(c)
     return n, fails
@@ -104,6 +137,11 @@ C03_CLAUSES = ("structure-", "meaning-", "method-", "same-payload")
 def report_fails(rep, pid, fails, dialect, clauses):
     for c in fails:
         clause = c["clause"]
+        if clause == "judge-error":
+            rep.violation("judge-error|%s|%s" % (dialect, re.sub(r"\d+", "N", c.get("error", ""))[:80]),
+                          lambda c=c: {"case": c, "event": find_event(c["part"], c["ep"])},
+                          "%s: BinaryFormat.tla cannot evaluate this case (%s)" % (c["ep"], c.get("error", "")))
+            continue
         if not clause.startswith(clauses):
             continue
         base = clause.split("-")[0]
@@ -184,7 +222,8 @@ def run(pid, tier, seed, replay=None):
         raise ToolError("BinaryWire no longer reproduces the examples of docs/binary.md:\n" + r["out"][-1500:])
 
     plans = [("mixed", seed, 160 if quick else 2500, 6), ("unknown", seed + 1, 50 if quick else 800, 5),
-             ("known", seed + 2, 60 if quick else 1200, 8), ("columns", seed + 3, 120 if quick else 2500, 6)]
+             ("known", seed + 2, 60 if quick else 1200, 8), ("columns", seed + 3, 120 if quick else 2500, 6),
+             ("shapes", seed + 4, 50 if quick else 600, 6)]
     total = 0
     nontrivial = 0
     samples = []
@@ -192,7 +231,8 @@ def run(pid, tier, seed, replay=None):
     for mode, sd, count, maxi in plans:
         trace = os.path.join(OUT, "%s_bin_%s.ndjson" % (pid, mode))
         rbxv(["bin-cases", "--seed", sd, "--count", count, "--max-instances", maxi, "--mode", mode], stdout_path=trace)
-        n, fails = validate_cases("BinaryFormatTrace", trace, dict(env, DIALECT="code"))
+        n, fails = validate_cases("BinaryFormatTrace", trace,
+                                  dict(env, DIALECT="code", CLAUSES="roundtrip" if pid == "C01" else "all"))
         total += n
         report_fails(rep, pid, fails, "code", clauses)
         nt, smp = count_nontrivial(trace)
